@@ -44,6 +44,13 @@ def len_chain(res, sizes):
         tot += sizes[i]
         out.append("assert(ser(f[%d].1).len() == %d); assert(ser_fields_from(f, %d, e).len() == %d);" % (i, sizes[i], i, tot))
     return "\n    ".join(out) + " }"
+def bytes_chain(res, parts, lets=""):
+    """proof hint (checked): ser_fields_from unfolded one field at a time from the last field; parts[i] = bytes of field i"""
+    n = len(parts)
+    out = ["proof { let f = %s.fields(); let e = Set::<Seq<char>>::empty(); %s assert(ser_fields_from(f, %d, e) =~= Seq::<u8>::empty());" % (res, lets, n)]
+    for i in range(n - 1, -1, -1):
+        out.append("assert(ser(f[%d].1) =~= %s); assert(ser_fields_from(f, %d, e) == ser(f[%d].1) + ser_fields_from(f, %d, e));" % (i, parts[i], i, i, i + 1))
+    return "\n    ".join(out) + " }"
 CAP_TYPE = {"ts_general_capability_set": "CapstypeGeneral", "ts_bitmap_capability_set": "CapstypeBitmap", "ts_order_capability_set": "CapstypeOrder",
             "ts_bitmap_cache_capability_set": "CapstypeBitmapcache", "ts_pointer_capability_set": "CapstypePointer", "ts_sound_capability_set": "CapstypeSound",
             "ts_input_capability_set": "CapstypeInput", "ts_brush_capability_set": "CapstypeBrush", "ts_glyph_capability_set": "CapstypeGlyphcache",
@@ -126,7 +133,8 @@ pub open spec fn bitmap_data_view() -> MV {
 }
 /// TS_CONFIRM_ACTIVE_PDU body after the share control header (2.2.1.13.2.1): lengthCombinedCapabilities counts numberCapabilities + pad2Octets + the sets
 pub open spec fn confirm_active_bytes(share_id: u32, source: Seq<u8>, ncaps: u16, caps: Seq<u8>) -> Seq<u8> {
-    le32(share_id) + le16(0x03EA) + le16(source.len() as u16) + le16((caps.len() + 4) as u16) + source + le16(ncaps) + le16(0) + caps
+    // (right-nested: the order in which Component::write concatenates, so that no sequence-associativity reasoning is needed)
+    le32(share_id) + (le16(0x03EA) + (le16(source.len() as u16) + (le16((caps.len() + 4) as u16) + (source + (le16(ncaps) + (le16(0) + caps))))))
 }
 """, mod="global", name="global_views"))
 
@@ -149,7 +157,9 @@ builder("ts_demand_active_pdu", "r.message", keys=True,
                ("C06", "prototype", "r.message.fields()[6].1 matches MV::Arr(s, p) && s.len() == 0 && *p == capability::capability_set_view(1, Seq::empty())")])
 OPT_SRC = "(if source is Some { source->Some_0@ } else { Seq::<u8>::empty() })"
 OPT_CAPS = "(if capabilities_set is Some { capabilities_set->Some_0.mv()->Arr_0 } else { Seq::<MV>::empty() })"
-builder("ts_confirm_active_pdu", "r.message", keys=True, fuel=10,
+CA_LETS = "let src = %s; let cs = %s; let caps = ser_seq(cs);" % (OPT_SRC, OPT_CAPS)
+builder("ts_confirm_active_pdu", "r.message", fuel=3,
+        post=bytes_chain("r.message", ["le32(o32(share_id, 0))", "le16(0x03EA)", "le16(src.len() as u16)", "le16((caps.len() + 4) as u16)", "src", "le16(cs.len() as u16)", "le16(0)", "caps"], CA_LETS),
         requires=["source is Some ==> source->Some_0@.len() <= 0xffff",
                   "capabilities_set is Some ==> ser(capabilities_set->Some_0.mv()).len() + 4 <= 0xffff && capabilities_set->Some_0.mv()->Arr_0.len() <= 0xffff"],
         closures={1: CAPSET_DEFAULT, 2: size_closure("length", "sourceDescriptor"), 3: size_closure("length", "capabilitySets", 4)},
